@@ -396,6 +396,8 @@ def rule_no_dev_open(ctx):
 
 
 def run(ctx):
+    from rules import preds
+    preds.run(ctx, PROPERTY, ['is_executable', 'dynamic-segment', 'dynamic-section'])   # the opaque predicates these rules lean on, against oracle tables
     rule_module_fields(ctx)
     rule_filter(ctx)
     rule_entry_first(ctx)
